@@ -9,6 +9,7 @@ import time
 
 from ..gen import cells as G
 from ..workmeter import measure
+from ..translate import arith2
 
 
 def _regen_tl_cost_table():
@@ -48,16 +49,22 @@ SPEC = dict(
              'and maximal sharing) plus a 2 s wall-clock cap per call; also compared: cell order, len(to_boc), number of sha256 objects and '
              'bytes hashed while constructing a DAG (= one per hashed level per DISTINCT cell), dictionary entries returned = entries '
              'counted by the model, side conditions of c19_tl_total on every table sent to the driver. C-level costs (bytes slicing '
-             'cells_data[i:], hashing, bitarray) are visible only through the line-count proxy and the wall-clock cap.',
+             'cells_data[i:], hashing, bitarray) are visible only through the line-count proxy and the wall-clock cap. One piece of the TL '
+             'model is tied to the source by proof rather than measurement: the vector-length guard added by fix 110bf4a '
+             '(`length > len(data) - i`, Python ints) and the bytes-field header / skip arithmetic of TlSchemas.deserialize are re-translated from '
+             'tl/generator.py on every run (Generated/TlFraming.lean) and proved, for every input and offset, to be what Tl.fieldStep of the cost '
+             'model computes (c19_src_tl_vector_guard, c19_src_tl_bytes_skip).',
         level_note='Trusted: Lean kernel (propext, Classical.choice, Quot.sound); Model/Cost.lean as a hand transcription of the loops of '
                    'cell.py (order, to_boc, __init__/calculate_hashes), deserialize.py, hashmap/parse.py, tl/generator.py (upper-bound '
                    'convention: validity failures that only cut work short are not modelled); harness/translate/tl_cost.py + TlEnv (the bundled '
                    'schema table in the cost model\'s syntax, same object the measured TL cases use); the measured tie lines <= A*steps+B holds '
                    'on the sampled inputs only; the line count is a proxy for cost (C-level work invisible); harness/workmeter.py and the Python '
                    'harness.',
-        technique='Lean 4 proof about a step-counting model + measured work inequality (sys.monitoring line counts) against the library',
+        technique='Lean 4 proof about a step-counting model + measured work inequality (sys.monitoring line counts) against the library '
+                  '+ source-regenerated TL guard / framing arithmetic',
     ),
-    translators=[('bundled tl schemas->Generated/TlCostTable.lean', _regen_tl_cost_table)],
+    translators=[('bundled tl schemas->Generated/TlCostTable.lean', _regen_tl_cost_table),
+                 ('tl/generator.py bytes framing + vector guard->Generated/TlFraming.lean', arith2.regenerator('TlFraming'))],
     design_ref='DESIGN.md §6 C19',
     rule='one case = one public call on one adversarial input with its model step count; families: double/triple-ref chains 10..1000, '
          'depth-1023 chains, diamonds, wide sharing, random DAGs (order, to_boc x flag sets, from_boc, construction); BoC byte strings '
@@ -67,7 +74,10 @@ SPEC = dict(
     trusted_base=['Model/Cost.lean mirrors the loop structure of Cell.order/to_boc, Boc.deserialize(_boc_header/_cell), hashmap.parse, '
                   'TlSchemas.deserialize by hand (cost only, upper-bound convention)',
                   'harness/workmeter.py: Python line events inside pytoniq_core are the unit of measured work',
-                  'constants A,B per operation fixed in harness/props/C19.py (calibrated once, ~4x slack)'],
+                  'constants A,B per operation fixed in harness/props/C19.py (calibrated once, ~4x slack)',
+                  'harness/translate/pyarith.py + arith.py/arith2.py and lean/TonVerif/PyBytes.lean + PyBytes2.lean for the c19_src_* theorems (the vector-length guard of '
+                  'fix 110bf4a and the bytes-field skip arithmetic of TlSchemas.deserialize, regenerated from the source on every run and proved to be what '
+                  'Tl.fieldStep of the cost model computes: c19_src_tl_vector_guard, c19_src_tl_bytes_skip)'],
     assumptions=['line events are a proxy of cost: C-level work (slicing, sha256, bitarray) is not counted',
                  'the tie is a sampled inequality, not a proof about CPython',
                  'TL: the table has no cycle of bare references (NoBareCycle; proved for the bundled table, checked by the driver for every '
@@ -947,9 +957,30 @@ def tl_vector_family(rng, env, n):
 
 # ----------------------------------------------------------------------------- run
 
+def src_search(ctx):
+    """Search mode only: logs the points where the regenerated TL guard / framing arithmetic (Generated/TlFraming.lean) differs from the
+    cost model's, then runs the TL families first: the canonical F16 input, vectors declaring far more elements than bytes remain,
+    well-formed and damaged objects.  True = a concrete failing input was found."""
+    arith2.search_points(ctx, ['TlFraming'])
+    n0 = len(ctx.failures)
+    rng = ctx.rng
+    env = TlEnv()
+    fixed = f16_probe(ctx, env)
+    if fixed:
+        check_tl(ctx, env, tl_vector_family(rng, env, 200), 'tl-vector')
+        items = []
+        for t in range(150):
+            bs = env.gen_boxed(rng, rng.randrange(0, 5))
+            items += [(bs, None), (mutate_bytes(rng, bs), None), (bs[:rng.randrange(len(bs) + 1)], None)]
+        check_tl(ctx, env, items, 'tl', f16_fixed=fixed)
+    return len(ctx.failures) > n0
+
+
 def run(ctx):
     rng = ctx.rng
     t0 = time.time()
+    if ctx.search and src_search(ctx):
+        return
     # ---- DAG shapes
     lens = [10, 20, 50, 100, 300, 1000] if not ctx.thorough else [10, 20, 21, 30, 50, 100, 200, 300, 500, 700, 1000]
     for d in lens:
